@@ -249,6 +249,7 @@ def complete(prop, sc):
 
 X_SCALE = (Fr(1, 2 ** 40), Fr(0), 'times scaled by 2^-40')
 X_SHIFT = (Fr(1), Fr(2 ** 30), 'times shifted by 2^30')
+X_NEG = (Fr(1), Fr(-3), 'times shifted by -3 (support straddles 0, a bound or spike can be exactly 0)')
 
 
 def affine_variant(sc, a, b, label):
@@ -288,7 +289,7 @@ AFFINE_EVERY = {'C01': 9, 'C02': 9, 'C03': 9, 'C04': 6, 'C05': 5, 'C06': 4, 'C07
                 'C14': 5, 'C15': 5, 'C16': 9, 'C17': 9, 'C18': 5, 'C20': 9}
 
 
-OWN0_EVERY = {'C01': 8, 'C02': 8, 'C03': 6, 'C04': 6, 'C05': 6, 'C06': 5, 'C14': 5, 'C15': 4, 'C16': 8, 'C17': 5}
+OWN0_EVERY = {'C01': 8, 'C02': 8, 'C03': 4, 'C04': 6, 'C05': 6, 'C06': 5, 'C14': 5, 'C15': 4, 'C16': 8, 'C17': 5}
 # (C07 is not in the table: its identity clauses compare the first train with a copy of itself, a pair whose
 #  common interval is the narrower one.)
 OWN0_AUTO = {'C03', 'C04', 'C05', 'C17'}
@@ -304,17 +305,24 @@ def own0_variant(prop, sc, n):
     s0, TS, TE = sc['trains'][0]
     if any((a, b) != (TS, TE) for _, a, b in sc['trains']):
         return None
-    lo, hi = (min(s0), max(s0)) if s0 else (TS + (TE - TS) / 4, TE - (TE - TS) / 4)
-    ts0 = TS + (lo - TS) / 2 if n % 3 else lo
-    te0 = hi + (TE - hi) / 2 if n % 2 else TE
-    if (ts0, te0) == (TS, TE):
-        te0 = hi
-    if (ts0, te0) == (TS, TE) or not ts0 < te0:
-        return None
     out = dict(sc)
+    if n % 4 in (1, 2) and 'interval' not in sc:
+        # wide flavour: the other trains' recording is five times longer (no spikes there), the first
+        # train keeps the original edges - pooled ISI statistics of raw and reconciled trains differ a lot
+        TEw = TE + 4 * (TE - TS)
+        out['trains'] = [(list(s_), TS, TEw) for s_, _, _ in sc['trains']]
+        ts0, te0 = TS, TE
+    else:
+        lo, hi = (min(s0), max(s0)) if s0 else (TS + (TE - TS) / 4, TE - (TE - TS) / 4)
+        ts0 = TS + (lo - TS) / 2 if n % 3 else lo
+        te0 = hi + (TE - hi) / 2 if n % 2 else TE
+        if (ts0, te0) == (TS, TE):
+            te0 = hi
+        if (ts0, te0) == (TS, TE) or not ts0 < te0:
+            return None
     out['own0'] = [ts0, te0]
     out['variant'] = 'first train on its own edges'
-    if prop in OWN0_AUTO and n % 2 == 0:
+    if prop in OWN0_AUTO and n % 4 in (0, 1):
         out['kw'] = dict(sc.get('kw', {}), mrts='auto')
     return out
 
@@ -329,12 +337,25 @@ def scenarios(prop, tier, rng):
         yield sc
         n += 1
         if every and n % every == 0:
-            v = affine_variant(sc, *(X_SCALE if (n // every) % 2 else X_SHIFT))
+            v = affine_variant(sc, *(X_SCALE, X_SHIFT, X_NEG)[(n // every) % 3])
             if v is not None:
                 yield v
         if own and n % own == 0:
             v = own0_variant(prop, sc, n // own)
             if v is not None:
+                yield v
+        if prop == 'C14' and n % 4 == 0 and 'raw' not in sc:
+            # a repeated spike time inside one train (sorted, same edges): every call form
+            # reconciles, so all forms still have to agree (C13 + C14)
+            ks = [k for k, t in enumerate(sc['trains']) if t[0]]
+            if ks:
+                k = ks[(n // 4) % len(ks)]
+                s_, a_, b_ = sc['trains'][k]
+                j = (n // 4) % len(s_)
+                v = dict(sc)
+                v['trains'] = list(sc['trains'])
+                v['trains'][k] = (list(s_[:j + 1]) + list(s_[j:]), a_, b_)
+                v['variant'] = 'repeated spike time in train %d' % k
                 yield v
 
 
